@@ -353,3 +353,51 @@ def c11_namespaces(two: bool, ent: bool, attr: bool, twice: bool, u0: int, u1: i
                 if ("xmlns:" + n.split(":")[0]) not in got:
                     return False
     return True
+
+
+
+# ---- b: title/id fall back to the file name (path input) -----------------------------------------
+def c11_file_stem(sfx: int, has_title: bool, s0: int, s1: int) -> bool:
+    """
+    vpre: 0 <= sfx <= 5
+    vpre: 97 <= s0 <= 122 and 97 <= s1 <= 122
+    vpost: _ == True
+    """
+    from harness import C12 as h12
+    from pyxform import xls2json_backends as B
+    from pyxform.builder import create_survey_element_from_dict
+    from pyxform.xls2json import workbook_to_json
+
+    stem = S(s0, s1)
+    path = "/forms/" + stem + h12.SUFFIXES[sfx]
+    md = h12._MD + ("| settings |\n| | form_title |\n| | T |\n" if has_title else "")
+    h12._FS.clear()
+    h12._FS[path] = md.encode("utf-8")
+    real = B.Path
+    B.Path = h12._FakePath
+    try:
+        dd = B.get_xlsform(path)
+    finally:
+        B.Path = real
+    js = workbook_to_json(workbook_dict=dd, fallback_form_name=dd.fallback_form_name, warnings=[])
+    survey = create_survey_element_from_dict(js)
+    shims.s3_prefill_xpath(survey)
+    p = _parts(survey.xml())
+    if p is None:
+        return False
+    head, body, title, model, prim = p
+    return prim.getAttribute("id") == stem and text_of(title) == ("T" if has_title else stem) and prim.tagName == "data"
+
+
+specialise(
+    "C11",
+    "b.defaults.file-stem",
+    c11_file_stem,
+    {"has_title": [False, True]},
+    timeout=300,
+    kernel=K + ("pyxform.xls2json_backends:get_definition_data", "pyxform.xls2json_backends:get_xlsform"),
+    shims=("S1", "S2", "S3", "S4", "S7-path"),
+    symbolic="file stem of 2 symbolic letters and the file suffix (symbolic index over .md, .MD, .txt, none, .Md, .markdown)",
+    bounds="Markdown form delivered as a path (in-memory file table behind pathlib); with and without a form_title setting",
+    weight=40,
+)
